@@ -2,13 +2,10 @@ package faultsim
 
 import (
 	"context"
-	"crypto/sha256"
-	"encoding/hex"
 	"fmt"
 	"io"
 	"os"
 	"path/filepath"
-	"sort"
 	"strings"
 
 	"github.com/bufbuild/buf/private/pkg/storage"
@@ -54,21 +51,6 @@ func (p *atomicPolicy) Decide(s *sched.Sim, op sched.Op) sched.Decision {
 		d.Arg = 1 + s.Tape.Draw("short", op.Size-1)
 	}
 	return d
-}
-
-func normState(state map[string]string) string {
-	// temp names carry a random suffix: normalise to "<dir>/.tmp<base>*"
-	var lines []string
-	for _, k := range simfs.SortedKeys(state) {
-		name := k
-		if simfs.IsTemp(k) {
-			name = filepath.ToSlash(filepath.Join(filepath.Dir(k), ".tmp*"))
-		}
-		h := sha256.Sum256([]byte(state[k]))
-		lines = append(lines, name+"="+hex.EncodeToString(h[:6]))
-	}
-	sort.Strings(lines)
-	return strings.Join(lines, ";")
 }
 
 // runAtomic is part B: atomic puts on a real directory, observed at every
@@ -179,7 +161,7 @@ func runAtomic(r *runner) *engine.Outcome {
 				content = string(data)
 			}
 			st, _ := simfs.DirState(dir)
-			crashStates[normState(st)] = struct{}{}
+			crashStates[simfs.StateHash(st)] = struct{}{}
 		} else {
 			data, err := storage.ReadPath(bg, raw, target)
 			if err == nil {
